@@ -142,8 +142,8 @@ def run(ctx):
                            f'every path: original and clone share IR nodes (modifying one changes the other)'))
     sc = m.get_function('loki/sourcefile.py', 'Sourcefile.clone')
     src = ast.unparse(sc.node)
-    ok = 'node.clone(rescope_symbols=True) if isinstance(node, ProgramUnit) else node.clone()' in src and \
-        'obj.ir = obj.ir.clone(body=ir_body)' in src and 'for node in obj.ir.body' in src
+    ok = X.has(src, 'node.clone(rescope_symbols=True) if isinstance(node, ProgramUnit) else node.clone()') and \
+        X.has(src, 'obj.ir = obj.ir.clone(body=ir_body)') and X.has(src, 'for node in obj.ir.body')
     (ctx.judge('R2', 'Sourcefile.clone:ir') if ok else
      ctx.violation('R2', 'Sourcefile.clone:ir', sc.where, 'the carried-over IR of a cloned Sourcefile is not deep-copied node by node'))
     g = X.nodes_with_guards(sc.node, lambda n: isinstance(n, ast.Assign) and ast.unparse(n.targets[0]) == 'obj.ir')
@@ -157,18 +157,18 @@ def run(ctx):
     pc = m.get_function('loki/program_unit.py', 'ProgramUnit.clone')
     src = ast.unparse(pc.node)
     checks = {
-        'rescope default': "kwargs.setdefault('rescope_symbols', True)" in src,
-        'escalates to Scope.clone': 'obj = super().clone(**kwargs)' in src,
-        'contained units cloned with new parent': "node.clone(parent=obj, rescope_symbols=kwargs['rescope_symbols'])" in src,
-        'contained units re-parented': 'node._reset_parent(obj)' in src,
-        'registered in parent scope': src.rstrip().endswith('return obj') and 'obj.register_in_parent_scope()' in src,
+        'rescope default': X.has(src, "kwargs.setdefault('rescope_symbols', True)"),
+        'escalates to Scope.clone': X.has(src, 'obj = super().clone(**kwargs)'),
+        'contained units cloned with new parent': X.has(src, "node.clone(parent=obj, rescope_symbols=kwargs['rescope_symbols'])"),
+        'contained units re-parented': X.has(src, 'node._reset_parent(obj)'),
+        'registered in parent scope': src.rstrip().endswith('return obj') and X.has(src, 'obj.register_in_parent_scope()'),
     }
     for k, v in checks.items():
         (ctx.judge('R3', f'ProgramUnit.clone:{k}') if v else
          ctx.violation('R3', f'ProgramUnit.clone:{k}', pc.where, f'clone path lost: {k}'))
     scl = m.get_function('loki/types/scope.py', 'Scope.clone')
     src = ast.unparse(scl.node)
-    ok = "kwargs['symbol_attrs'] = self.symbol_attrs.clone(parent=kwargs.get('parent'))" in src and "kwargs['rescope_symbols'] = True" in src
+    ok = X.has(src, "kwargs['symbol_attrs'] = self.symbol_attrs.clone(parent=kwargs.get('parent'))") and X.has(src, "kwargs['rescope_symbols'] = True")
     (ctx.judge('R3', 'Scope.clone: table cloned + forced rescoping') if ok else
      ctx.violation('R3', 'Scope.clone:symbol_attrs', scl.where, 'the symbol table is shared with / not re-parented for the clone'))
 
